@@ -99,12 +99,17 @@ func subsets(n, k int, f func(sel []int)) {
 // goroutine is abandoned; after three of them nothing further is started in this process, every later call is reported the same way).
 var c09Hangs int
 
+// c09Patience is how long a consuming call may take before it is reported as not returning. 20 s for ordinary inputs (they take
+// milliseconds); the 100 000-step size ladder sets it to 15 minutes, because parsing cost that grows with the square of the nesting depth
+// (about a minute for 100 000 levels on this machine) is slow, not a hang.
+var c09Patience = 20 * time.Second
+
 func guardWithin(f func()) (panicTrace string, hung bool) {
 	if c09Hangs >= 3 {
 		return "", true
 	}
 	var p string
-	if !returnsWithin(20*time.Second, func() { _, p = guard(func() error { f(); return nil }) }) {
+	if !returnsWithin(c09Patience, func() { _, p = guard(func() error { f(); return nil }) }) {
 		c09Hangs++
 		return "", true
 	}
@@ -117,7 +122,7 @@ func respContract(t *core.T, api, family string, f func() (*saml.Assertion, erro
 	p, hung := guardWithin(func() { a, err = f() })
 	t.Impl(1)
 	if hung {
-		t.Fail("C09/"+api+"/"+family+"/does-not-return", "%s has not returned after 20 s", api)
+		t.Fail("C09/"+api+"/"+family+"/does-not-return", "%s has not returned after %s", api, c09Patience)
 		t.Outcome("hang")
 		return nil, true
 	}
@@ -148,7 +153,7 @@ func anyContract(t *core.T, api, family string, f func() (ok bool, err error)) (
 	p, hung := guardWithin(func() { ok, err = f() })
 	t.Impl(1)
 	if hung {
-		t.Fail("C09/"+api+"/"+family+"/does-not-return", "%s has not returned after 20 s", api)
+		t.Fail("C09/"+api+"/"+family+"/does-not-return", "%s has not returned after %s", api, c09Patience)
 		t.Outcome("hang")
 		return nil, true
 	}
@@ -559,8 +564,8 @@ func c09Metadata(t *core.T, doc []byte, family string, idp *saml.IdentityProvide
 	var r res
 	select {
 	case r = <-ch:
-	case <-time.After(20 * time.Second):
-		t.Fail("C09/samlsp.ParseMetadata/"+family+"/does-not-return", "samlsp.ParseMetadata has not returned after 20 s on a %d-byte document", len(doc))
+	case <-time.After(c09Patience):
+		t.Fail("C09/samlsp.ParseMetadata/"+family+"/does-not-return", "samlsp.ParseMetadata has not returned after %s on a %d-byte document", c09Patience, len(doc))
 		t.Input("metadata_xml", string(trunc(doc, 4000)))
 		return // (the stuck goroutine is abandoned; the worker process ends with the run)
 	}
@@ -574,7 +579,7 @@ func c09Metadata(t *core.T, doc []byte, family string, idp *saml.IdentityProvide
 	if srv, serr := samlidp.New(samlidp.Options{URL: harness.MustURL("https://idp.example.com"), Key: samlgen.Key("idp1").Key, Certificate: samlgen.Key("idp1").Cert, Store: &samlidp.MemoryStore{}, Logger: harness.NullLogger{}}); serr == nil {
 		var p string
 		code := 0
-		if !returnsWithin(20*time.Second, func() {
+		if !returnsWithin(c09Patience, func() {
 			_, p = guard(func() error {
 				w := httptest.NewRecorder()
 				srv.ServeHTTP(w, httptest.NewRequest("PUT", "https://idp.example.com/services/x", bytes.NewReader(doc)))
@@ -582,7 +587,7 @@ func c09Metadata(t *core.T, doc []byte, family string, idp *saml.IdentityProvide
 				return nil
 			})
 		}) {
-			t.Fail("C09/samlidp.PUT-service/"+family+"/does-not-return", "PUT /services/x has not returned after 20 s on a %d-byte body", len(doc))
+			t.Fail("C09/samlidp.PUT-service/"+family+"/does-not-return", "PUT /services/x has not returned after %s on a %d-byte body", c09Patience, len(doc))
 			t.Input("metadata_xml", string(trunc(doc, 4000)))
 			return
 		}
@@ -1666,6 +1671,10 @@ func c09Bytes(c *core.Ctx, sp *saml.ServiceProvider, idp *saml.IdentityProvider)
 				n, shape, kind := n, shape, kind
 				c.Case(fmt.Sprintf("ladder/%s/%s/%d", kind, shape, n), func(t *core.T) {
 					t.NonTrivial()
+					if n > 10000 {
+						c09Patience = 15 * time.Minute
+						defer func() { c09Patience = 20 * time.Second }()
+					}
 					var d []byte
 					switch shape {
 					case "deep":
